@@ -24,7 +24,7 @@ theorem balanced (ds : List Disp) (a : Around) (hp : a.pendingCancel = false) (b
       enterEvs_no_exit, exitEvs_count, enterEvs_no_body, exitEvs_no_body, isEnter, isExit, isBody]
     refine ⟨by simp [hd], ?_, by simp⟩
     simp [hd]
-  · simp only [h, Bool.false_eq_true, ↓reduceIte, count_append, enterEvs_count, exitEvs_no_enter,
+  · simp only [h, hp, Bool.false_eq_true, ↓reduceIte, count_append, enterEvs_count, exitEvs_no_enter,
       enterEvs_no_exit, exitEvs_count, enterEvs_no_body, exitEvs_no_body]
     refine ⟨by simp [hd], ?_, by simp⟩
     simp [hd]
@@ -78,10 +78,13 @@ theorem exit_receives_body_outcome (ds : List Disp) (a : Around) (bodyRaises : B
       · simp at hw
       · exact exitArgs_exitEvs bodyRaises ds 0 w hw
   · simp only [h, Bool.false_eq_true, ↓reduceIte] at hw ⊢
-    simp only [exitArgs, List.filterMap_append, List.mem_append] at hw
-    rcases hw with hw | hw
-    · have := exitArgs_enterEvs ds 0; simp only [exitArgs] at this; rw [this] at hw; simp at hw
-    · exact exitArgs_exitEvs true ds 0 w hw
+    by_cases hp : a.pendingCancel
+    · simp only [hp, ↓reduceIte] at hw
+      have := exitArgs_enterEvs ds 0; rw [this] at hw; simp at hw
+    · simp only [hp, Bool.false_eq_true, ↓reduceIte, exitArgs, List.filterMap_append, List.mem_append] at hw
+      rcases hw with hw | hw
+      · have := exitArgs_enterEvs ds 0; simp only [exitArgs] at this; rw [this] at hw; simp at hw
+      · exact exitArgs_exitEvs true ds 0 w hw
 
 /-- phase of an event: entering, body, exiting -/
 def phase : Ev → Nat
@@ -145,7 +148,7 @@ theorem order (ds : List Disp) (a : Around) (hp : a.pendingCancel = false) (body
       rcases ha with ⟨e', he', rfl⟩ | rfl
       · rw [phase_enterEvs ds 0 e' he']; omega
       · simp [phase]
-  · simp only [h, Bool.false_eq_true, ↓reduceIte, List.map_append]
+  · simp only [h, hp, Bool.false_eq_true, ↓reduceIte, List.map_append]
     rw [List.pairwise_append]
     refine ⟨?_, ?_, ?_⟩
     · exact pairwise_of_const _ 0 (phase_enterEvs ds 0)
@@ -165,7 +168,7 @@ theorem errors_surface (ds : List Disp) (a : Around) (bodyRaises : Bool)
   · rcases h with h | h
     · by_cases hp : a.pendingCancel <;> simp [ha, h, hp]
     · simp [ha] at h
-  · simp [ha]
+  · by_cases hp : a.pendingCancel <;> simp [ha, hp]
 
 /-- C08.quiet_when_clean: the caller sees no exception when everything entered, the body returned and no
 cleanup raised (no spurious failure). -/
